@@ -81,17 +81,25 @@ class Line:
 def line_decode(ex, self, args, kw):
     # bytes.decode('ascii') raises UnicodeDecodeError on non-ASCII bytes; a line that parses as a header is
     # ASCII; whether an arbitrary line is ASCII is a ghost predicate
+    enc = codec_arg(args, kw)
     if self.text:
         raise SymRaise("AttributeError", "'str' object has no attribute 'decode'")
     isascii = z3.Function("line_ascii", I, I, B)(self.F, self.pos)
     ex.ctx.assume(z3.Implies(self.ok(), isascii))
     ex.ctx.assume(z3.Implies(self.length() == 0, isascii))
-    ex.ctx.check_or_raise(isascii, "UnicodeDecodeError", "non-ascii header line")
+    if enc == "ascii":
+        ex.ctx.check_or_raise(isascii, "UnicodeDecodeError", "non-ascii header line")
+    else:
+        # utf-8: every ASCII line is valid UTF-8 (and decodes to the same text); other lines may or may not be
+        isutf8 = z3.Function("line_utf8", I, I, B)(self.F, self.pos)
+        ex.ctx.assume(z3.Implies(isascii, isutf8))
+        ex.ctx.check_or_raise(isutf8, "UnicodeDecodeError", "header line is not valid utf-8")
     return Line(self.F, self.pos, True, self.fobj)
 
 
 @method("Line", "encode")
 def line_encode(ex, self, args, kw):
+    codec_arg(args, kw)
     if not self.text:
         raise SymRaise("AttributeError", "'bytes' object has no attribute 'encode'")
     return Line(self.F, self.pos, False, self.fobj)
